@@ -46,6 +46,7 @@ type Scenario struct {
 	StallPm   int               `json:"stall_pm"`
 	Rates     map[string]int    `json:"rates,omitempty"`
 	MaxF      map[string]int    `json:"maxf,omitempty"`
+	NthF      map[string]int    `json:"nthf,omitempty"` // kind -> fire at the n-th eligible site (placement sweeps)
 	Forced    map[string]string `json:"forced,omitempty"`
 	Off       map[string]bool   `json:"off,omitempty"`
 	NTier2    int               `json:"ntier2"`
@@ -232,7 +233,7 @@ func RunScenario(t *testing.T, s *Scenario, chk Checker, keepLog bool) (rep *Run
 		sim := NewSim(s.Seed, s.Policy)
 		sim.StallPermille = s.StallPm
 		sim.keepText = keepLog
-		sim.Faults = FaultPlan{Rate: s.Rates, Max: s.MaxF, Forced: s.Forced, Off: s.Off}
+		sim.Faults = FaultPlan{Rate: s.Rates, Max: s.MaxF, Nth: s.NthF, Forced: s.Forced, Off: s.Off}
 		disk := NewDisk()
 		if s.Scheme != "" {
 			disk.Scheme = s.Scheme
